@@ -76,6 +76,8 @@ fn c14_faults(tier: Tier, group: u64, run: RunTape) {
                     run(vec![1, link, pkt, 1, pos, size]);
                 }
                 run(vec![1, link, pkt, 2, pos, 0]);
+                // the write accepts nothing (`Ok(0)`)
+                run(vec![1, link, pkt, 5, pos, 0]);
             }
             for pos in 0..flushes {
                 for k in 0..3 {
